@@ -1,6 +1,6 @@
 """property -> rule sets (DESIGN §4)"""
 from engine import ok, bad, assumed, floor
-import r_lock, r_panic, r_errd, r_order, r_misc, r_nowrap
+import r_lock, r_panic, r_errd, r_order, r_misc, r_nowrap, r_desc
 
 PROPS = {}
 
@@ -130,3 +130,28 @@ def c04(ctx):
     obs.append(floor('PANIC', 'builtin-handlers', len(hs), 20, 'the documented built-in operators and functions are closures escaping into handler types'))
     obs.append(floor('PANIC', 'exec-scope-bodies', len(bodies), 30, 'evaluator + handlers + accessors'))
     return obs, {'analysed': {'scope_bodies': len(bodies), 'builtin_handlers': len(hs), 'panic_sites': len(sites)}}
+
+
+@prop('C18',
+      'TDESC: the descriptor store is found by type (static Mutex<HashMap<Key, Descriptor>>). Key agreement: every body that builds key variant X stores / extracts value variant X '
+      '(nine setter/getter pairs, one each); the two enums declare identical variant lists; the key derives Hash/Eq; name-carrying kinds put their String parameter into the key unchanged. '
+      'Fallback: each kind falls back to one default fn item used by no other kind. Dispatch: in ExprAST::describe every dyn-Fn descriptor call takes its callee from the getter of the node\'s own kind, '
+      'asks for the node\'s own name field, and passes describe() of every child exactly once in field order. PANIC over Reach(describe). '
+      'Given HashMap semantics this entails the statement.',
+      not_decided='what user-registered descriptors themselves return',
+      assumptions=COMMON_ASSUME)
+def c18(ctx):
+    prog = ctx.prog
+    dm = r_desc.DescModel(prog)
+    res = r_desc.rule_keys(dm)
+    if isinstance(res, list):
+        return res, {}
+    obs, getters = res
+    obs += r_desc.rule_fallback(dm, getters)
+    obs += r_desc.rule_dispatch(dm, getters)
+    d = [b for b in prog.bodies if b.name == r_desc.DESCRIBE]
+    if d:
+        reach = [prog.by_id[i] for i in sorted(prog.reach([d[0].id]))]
+        pobs, sites = r_panic.evaluate(reach)
+        obs += pobs
+    return obs, {'analysed': {'describe_reach': len(reach) if d else 0, 'key_bodies': len(dm.key_bodies)}}
